@@ -20,6 +20,9 @@ type extraFacts struct {
 	MutexFields       [][]string `json:"mutexFields"`       // type, field
 	WriterCalls       [][]string `json:"writerCalls"`       // caller, callee — callee is a function that writes a field of a shared type
 	ConstructionCalls [][]string `json:"constructionCalls"` // caller, callee — every static call made by a schema-construction function
+	CritSections      [][]string `json:"critSections"`      // func, mutex, #Lock, #Unlock (deferred ones included), "deferred" | "explicit"
+	FieldRegions      [][]string `json:"fieldRegions"`      // type, field, func, number of distinct critical sections of func in which the field is used
+	LazyGuards        [][]string `json:"lazyGuards"`        // func, condition of the leading `if`, "return" | "do"
 }
 
 func funcName(fd *ast.FuncDecl) string {
@@ -283,6 +286,61 @@ func collectExtra(fset *token.FileSet, files []*ast.File, info *types.Info, lock
 			for mu, p := range open {
 				spans = append(spans, span{p, fd.Body.End(), mu})
 			}
+			sort.Slice(spans, func(i, j int) bool { return spans[i].from < spans[j].from })
+			// shape of the critical sections of this function, per mutex
+			{
+				nLock, nUnlock, deferred := map[string]int{}, map[string]int{}, map[string]bool{}
+				ast.Inspect(fd.Body, func(n ast.Node) bool {
+					switch x := n.(type) {
+					case *ast.DeferStmt:
+						if se, ok := x.Call.Fun.(*ast.SelectorExpr); ok && se.Sel.Name == "Unlock" {
+							mu := types.ExprString(se.X)
+							nUnlock[mu]++
+							deferred[mu] = true
+						}
+						return false
+					case *ast.CallExpr:
+						if se, ok := x.Fun.(*ast.SelectorExpr); ok && len(x.Args) == 0 {
+							mu := types.ExprString(se.X)
+							switch se.Sel.Name {
+							case "Lock":
+								nLock[mu]++
+							case "Unlock":
+								nUnlock[mu]++
+							}
+						}
+					}
+					return true
+				})
+				for mu, n := range nLock {
+					style := "explicit"
+					if deferred[mu] {
+						style = "deferred"
+					}
+					X.CritSections = append(X.CritSections, []string{fn, mu, fmt.Sprint(n), fmt.Sprint(nUnlock[mu]), style})
+				}
+			}
+			// leading guard of a function that writes fields of shared types (lazy initialisers: `if done { return … }`)
+			if writers[fn] && len(fd.Body.List) > 0 {
+				if is, ok := fd.Body.List[0].(*ast.IfStmt); ok && is.Init == nil && is.Else == nil {
+					kind := "do"
+					if n := len(is.Body.List); n > 0 {
+						if _, ok := is.Body.List[n-1].(*ast.ReturnStmt); ok {
+							kind = "return"
+						}
+					}
+					X.LazyGuards = append(X.LazyGuards, []string{fn, types.ExprString(is.Cond), kind})
+				}
+			}
+			regionOf := func(p token.Pos) int {
+				for i, s := range spans {
+					if s.from <= p && p < s.to {
+						return i
+					}
+				}
+				return -1
+			}
+			regionsUsed := map[string]map[int]bool{}
 			held := func(p token.Pos) string {
 				for _, s := range spans {
 					if s.from <= p && p < s.to {
@@ -316,6 +374,13 @@ func collectExtra(fset *token.FileSet, files []*ast.File, info *types.Info, lock
 							break
 						}
 						r := []string{nt.Obj().Name(), fl.Name(), fn, held(x.Pos())}
+						if ri := regionOf(x.Pos()); ri >= 0 {
+							rk := nt.Obj().Name() + "\x00" + fl.Name()
+							if regionsUsed[rk] == nil {
+								regionsUsed[rk] = map[int]bool{}
+							}
+							regionsUsed[rk][ri] = true
+						}
 						k := strings.Join(r, "\x00")
 						if !seenAcc[k] {
 							seenAcc[k] = true
@@ -361,6 +426,10 @@ func collectExtra(fset *token.FileSet, files []*ast.File, info *types.Info, lock
 				}
 				return true
 			})
+			for rk, set := range regionsUsed {
+				parts := strings.SplitN(rk, "\x00", 2)
+				X.FieldRegions = append(X.FieldRegions, []string{parts[0], parts[1], fn, fmt.Sprint(len(set))})
+			}
 		}
 	}
 	less := func(xs [][]string) {
@@ -381,6 +450,9 @@ func collectExtra(fset *token.FileSet, files []*ast.File, info *types.Info, lock
 	less(X.MutexFields)
 	less(X.WriterCalls)
 	less(X.ConstructionCalls)
+	less(X.CritSections)
+	less(X.FieldRegions)
+	less(X.LazyGuards)
 	return X
 }
 
@@ -417,5 +489,30 @@ func renderExtra(X *extraFacts) string {
 	tuples("mutex fields of shared types", "mutexFields", "String × String", X.MutexFields, -1)
 	tuples("static calls (caller, callee) whose callee writes a field of a shared type (appears as function in lockFacts)", "writerCalls", "String × String", X.WriterCalls, -1)
 	tuples("every static call (caller, callee) made by a schema-construction function (NewSchema, typeMapReducer, assertObjectImplementsInterface, NewEnum, Schema.PossibleTypes, Schema.buildPossibleTypeMap)", "constructionCalls", "String × String", X.ConstructionCalls, -1)
+	tuplesN := func(doc, name, typ string, xs [][]string, nats map[int]bool) {
+		fmt.Fprintf(&b, "/-- %s -/\ndef %s : List (%s) := [\n", doc, name, typ)
+		for i, x := range xs {
+			parts := make([]string, len(x))
+			for j, s := range x {
+				if nats[j] {
+					parts[j] = s
+				} else {
+					parts[j] = q(s)
+				}
+			}
+			sep := ","
+			if i == len(xs)-1 {
+				sep = ""
+			}
+			fmt.Fprintf(&b, "  (%s)%s\n", strings.Join(parts, ", "), sep)
+		}
+		b.WriteString("]\n\n")
+	}
+	tuplesN("critical sections per function and mutex expression: (function, mutex, number of Lock() calls, number of Unlock() calls incl. deferred, \"deferred\" if an Unlock is deferred else \"explicit\")",
+		"critSections", "String × String × Nat × Nat × String", X.CritSections, map[int]bool{2: true, 3: true})
+	tuplesN("for every field of a shared type used while a mutex is held: (type, field, function, number of distinct critical sections of that function in which it is used)",
+		"fieldRegions", "String × String × String × Nat", X.FieldRegions, map[int]bool{3: true})
+	tuplesN("leading `if` of every function that writes a field of a shared type and starts with one: (function, condition, \"return\" if the branch ends in a return, else \"do\")",
+		"lazyGuards", "String × String × String", X.LazyGuards, nil)
 	return b.String()
 }
